@@ -319,8 +319,12 @@ type e1Proc struct {
 }
 
 func e1Start(prop, tier string) *e1Proc {
+	return e1StartArgs([]string{"worker", "e1", prop, tier})
+}
+
+func e1StartArgs(args []string) *e1Proc {
 	self, _ := os.Executable()
-	cmd := exec.Command(self, "worker", "e1", prop, tier)
+	cmd := exec.Command(self, args...)
 	cmd.Env = append(os.Environ(), "GOMAXPROCS=1")
 	stdin, _ := cmd.StdinPipe()
 	stdout, _ := cmd.StdoutPipe()
@@ -362,10 +366,10 @@ func (p *e1Proc) run(level string, seed int, deadline time.Duration, trace strin
 }
 
 // e1Careful re-runs a seed whose worker died or hung, with per-candidate tracing, and returns the killing input.
-func e1Careful(prop, tier, level string, seed int) map[string]string {
+func e1Careful(prop, tier, level string, seed int) (map[string]string, *e1SeedReport) {
 	tf, err := os.CreateTemp("/dev/shm", "verif-e1-trace-")
 	if err != nil {
-		return nil
+		return nil, nil
 	}
 	tf.Close()
 	defer os.Remove(tf.Name())
@@ -379,7 +383,7 @@ func e1Careful(prop, tier, level string, seed int) map[string]string {
 		select {
 		case rep := <-done:
 			if rep != nil {
-				return nil // did not reproduce
+				return nil, rep // did not reproduce: the seed only needed longer than the deadline
 			}
 			cur, _ := os.ReadFile(tf.Name())
 			var m map[string]string
@@ -387,7 +391,7 @@ func e1Careful(prop, tier, level string, seed int) map[string]string {
 			if m != nil {
 				m["event"] = "worker died (fatal error, e.g. out of memory)"
 			}
-			return m
+			return m, nil
 		case <-time.After(500 * time.Millisecond):
 			cur, _ := os.ReadFile(tf.Name())
 			if !bytes.Equal(cur, last) {
@@ -398,7 +402,7 @@ func e1Careful(prop, tier, level string, seed int) map[string]string {
 				if m != nil {
 					m["event"] = "no progress for 25 s on this input (hang or time budget exceeded)"
 				}
-				return m
+				return m, nil
 			}
 		}
 	}
@@ -410,6 +414,10 @@ func runE1(c *vf.Ctx, id string) {
 		c.SetBudget(14 * 60 * 1e9)
 	} else {
 		c.SetBudget(6 * 60 * 1e9)
+	}
+	seedDeadline := 3 * time.Minute
+	if thorough {
+		seedDeadline = 8 * time.Minute
 	}
 	box, file := e1Seeds()
 	types := map[string]bool{}
@@ -501,7 +509,7 @@ func runE1(c *vf.Ctx, id string) {
 				next++
 				mu.Unlock()
 				t0 := time.Now()
-				rep := p.run(j.level, j.idx, 3*time.Minute, "")
+				rep := p.run(j.level, j.idx, seedDeadline, "")
 				if d := time.Since(t0); d > 5*time.Second {
 					mu.Lock()
 					slow = append(slow, fmt.Sprintf("%s seed %d: %.1fs", j.level, j.idx, d.Seconds()))
@@ -517,7 +525,7 @@ func runE1(c *vf.Ctx, id string) {
 						name = file[j.idx].Name
 					}
 					if id == "C04" {
-						killer := e1Careful(id, c.Tier, j.level, j.idx)
+						killer, rep2 := e1Careful(id, c.Tier, j.level, j.idx)
 						sig := "worker died or hung on seed " + name
 						if killer != nil {
 							sig = e1KillerSig(killer)
@@ -527,6 +535,16 @@ func runE1(c *vf.Ctx, id string) {
 							p = e1Start(id, c.Tier)
 							continue
 						}
+						if killer == nil && rep2 != nil {
+							// no input kills or stalls the worker: the seed's neighbourhood only needed longer than the
+							// per-seed deadline (loaded machine); the traced re-run explored it completely
+							mu.Lock()
+							slow = append(slow, fmt.Sprintf("%s seed %d (%s): exceeded the per-seed deadline, completed in the traced re-run", j.level, j.idx, name))
+							mu.Unlock()
+							p = e1Start(id, c.Tier)
+							rep = rep2
+							goto account
+						}
 						c.Fail(sig, "decoding/Info/encoding never exhausts memory or hangs", map[string]interface{}{"level": j.level, "seed": j.idx, "seed_name": name, "killer": killer, "input_hex": killer["input_hex"]})
 					} else {
 						c.Cap("worker died on seed " + name + " (reported by C04)")
@@ -534,6 +552,7 @@ func runE1(c *vf.Ctx, id string) {
 					p = e1Start(id, c.Tier)
 					continue
 				}
+			account:
 				mu.Lock()
 				c.Evals.Add(rep.Cands)
 				c.Transitions.Add(rep.Cands)
